@@ -43,6 +43,60 @@ def make_cases(rng, tier, maxl):
     return cases
 
 
+def run_ka(res, tier, root, maxl, rng, tmp):
+    """tight skeleton correspondence: ShellPairModel (extracted) fed with the library's own leaves"""
+    sys.path.insert(0, os.path.join(VERIF, "translators"))
+    import t_gen
+    gd = t_gen.extract(os.path.join(root, "b/src/generated"))
+    cases = []
+    hi = maxl if tier == "thorough" else 3
+    geoms = ["distinct", "A=C", "B=C", "A=B=C", "A=B"]
+    for LA in range(hi + 1):
+        for LB in range(hi + 1):
+            for gk in geoms:
+                Ls = range(0, maxl + 1) if tier == "thorough" else sorted(set([rng.randint(0, min(maxl, 3)), rng.randint(1, 2)]))
+                for L in Ls:
+                    A, B, C = gen.geometry(rng, gk)
+                    sa = gen.rand_shell(rng, LA, A, nprim=rng.randint(1, 2), emin=0.3, emax=5.0); sb = gen.rand_shell(rng, LB, B, nprim=rng.randint(1, 2), emin=0.3, emax=5.0)
+                    u = gen.rand_ecp(rng, L, C, nper=(1, 2), amin=0.3, amax=6.0)
+                    extra = {}
+                    for l in range(L):
+                        key = (min(LA, LB), max(LA, LB), l)
+                        g = gd["classes"].get(key)
+                        if g:
+                            extra["tri_%d_A" % l] = " ".join("%d,%d,%d" % t for t in g["A"]) or "-"
+                            extra["tri_%d_B" % l] = " ".join("%d,%d,%d" % t for t in g["B"]) or "-"
+                            extra["nbase_%d" % l] = g["callA"][0]
+                    cases.append({"id": "k%d_%d%d%d_%s" % (len(cases), LA, LB, L, gk.replace("=", "")), "extra": extra, "shells": [sa, sb], "ecps": [u]})
+    cf = os.path.join(tmp, "ka_cases.txt"); gen.write_cases(cf, cases)
+    exe = compile_driver("drv_pairleaf.cpp", "rel")
+    of = os.path.join(tmp, "ka_out.txt")
+    rc, out = sh([exe, cf, of, str(maxl), str(maxl)], check=False, timeout=7200)
+    if rc != 0:
+        raise RuntimeError("drv_pairleaf failed: " + out[-1500:])
+    aexe = compile_driver("drv_angular.cpp", "rel"); om = os.path.join(tmp, "tables.bin")
+    sh([aexe, "tables", str(maxl), str(maxl), om], timeout=600)
+    rc, out = sh([os.path.join(OCAML, "drv_pairleaf"), of, om, "1e-10"], check=False, timeout=7200)
+    summ = [l for l in out.splitlines() if l.startswith("SUMMARY")]
+    if rc != 0 or not summ:
+        raise RuntimeError("drv_pairleaf (model) failed: " + out[-1500:])
+    kv = dict(x.split("=") for x in summ[0].split()[1:])
+    res.cov["skeleton_cases"] = int(kv["cases"]); res.cov["skeleton_entries_compared"] = int(kv["compared"]); res.cov["skeleton_nonzero"] = int(kv["nonzero"])
+    res.cov["skeleton_branch_histogram"] = {l.split()[1]: int(l.split()[2]) for l in out.splitlines() if l.startswith("BRANCH")}
+    mm = [l for l in out.splitlines() if l.startswith("MISMATCH")]
+    by = {c["id"]: c for c in cases}
+    seen = set()
+    for l in mm:
+        cid = l.split()[1]
+        if cid in seen or len(seen) >= 3:
+            continue
+        seen.add(cid)
+        c = by.get(cid, {})
+        res.violation("ka-" + cid, {"theorem_or_correspondence": "ShellPairModel (extracted) fed with the library's own radial/angular leaves vs compute_shell_pair (1e-10 x max)",
+                                    "input": {k: v for k, v in c.items() if k != "extra"}, "observed": [x for x in mm if x.split()[1] == cid][:6], "n": len(mm)})
+    return len(cases)
+
+
 def coef_scale(c):
     return sum(abs(x) for x in c["shells"][0]["d"]) * sum(abs(x) for x in c["shells"][1]["d"]) * sum(abs(p["d"]) for p in c["ecps"][0]["p"])
 
@@ -64,6 +118,7 @@ def run(tier, replay=None):
     cases = make_cases(rng, tier, maxl)
     tmp = scratch_dir()
     try:
+        nka = run_ka(res, tier, root, maxl, rng, tmp)
         impl, _ = pair_k.run_pairs(cases, tmp)
         spec = pair_k.run_spec(cases, tmp)
         active = set(k.get("id") for k in load_known() if k.get("status") == "known")
@@ -90,7 +145,7 @@ def run(tier, replay=None):
                 kn.setdefault(cause, []).append((cid, d0, tol))
             else:
                 viol.append((cid, "max deviation %.3e > tolerance %.3e (scale %.3e); trace %s; restored by: %s" % (d0, tol, max(abs(x) for x in s), impl[cid].get("trace"), cause), c))
-        res.cov["evaluations"] = len(cases); res.cov["oracle_inconclusive"] = ninc
+        res.cov["evaluations"] = len(cases) + nka; res.cov["oracle_inconclusive"] = ninc
         res.cov["distinct_nontrivial"] = len(set((c["shells"][0]["l"], c["shells"][1]["l"], max(p["l"] for p in c["ecps"][0]["p"]), c["extra"]["geom"], c["extra"]["stratum"]) for c in cases))
         res.cov["stratum_histogram"] = strata
         res.cov["traces_validated_against_impl"] = len(cases) - ninc
